@@ -12,7 +12,7 @@
 (* bounded model-checking instance (MC_Tree) and by the trace validator   *)
 (* (Trace_File).                                                          *)
 (***************************************************************************)
-EXTENDS Naturals, Integers, Sequences, FiniteSets, SequencesExt, Functions, TLC
+EXTENDS Naturals, Integers, Sequences, FiniteSets, SequencesExt, Functions, TLC, Rle
 
 CONSTANT Dict      \* name id |-> [u |-> upper-cased UTF-16 units, v |-> valid?]
 
@@ -42,36 +42,7 @@ TimeLeq(a, b) == \/ a[1] < b[1]
                  \/ a[1] = b[1] /\ a[2] = b[2] /\ a[3] <= b[3]
 
 ---------------------------------------------------------------------------
-(* Run-length encoded byte vectors: sequences of <<byte, count>> with       *)
-(* count > 0 and no two adjacent runs of the same byte.                    *)
-RECURSIVE RLen(_)
-RLen(r) == IF r = <<>> THEN 0 ELSE Head(r)[2] + RLen(Tail(r))
-
-RECURSIVE RNorm(_)
-RNorm(r) == IF r = <<>> THEN <<>>
-            ELSE IF Head(r)[2] = 0 THEN RNorm(Tail(r))
-            ELSE LET rest == RNorm(Tail(r)) IN
-                 IF rest # <<>> /\ Head(rest)[1] = Head(r)[1]
-                 THEN <<<<Head(r)[1], Head(r)[2] + Head(rest)[2]>>>> \o Tail(rest)
-                 ELSE <<Head(r)>> \o rest
-
-RECURSIVE RTake(_, _)
-RTake(r, n) == IF n <= 0 \/ r = <<>> THEN <<>>
-               ELSE IF Head(r)[2] <= n THEN <<Head(r)>> \o RTake(Tail(r), n - Head(r)[2])
-               ELSE <<<<Head(r)[1], n>>>>
-
-RECURSIVE RDrop(_, _)
-RDrop(r, n) == IF r = <<>> THEN <<>>
-               ELSE IF n <= 0 THEN r
-               ELSE IF Head(r)[2] <= n THEN RDrop(Tail(r), n - Head(r)[2])
-               ELSE <<<<Head(r)[1], Head(r)[2] - n>>>> \o Tail(r)
-
-RCat(a, b)   == RNorm(a \o b)
-RZeros(n)    == IF n <= 0 THEN <<>> ELSE <<<<0, n>>>>
-RSlice(r, off, n) == RNorm(RTake(RDrop(r, off), n))
-RSplice(d, off, runs) == RNorm(RTake(d, off) \o runs \o RDrop(d, off + RLen(runs)))
-RSetLen(d, n) == IF n <= RLen(d) THEN RNorm(RTake(d, n)) ELSE RCat(d, RZeros(n - RLen(d)))
-
+(* Run-length encoded byte vectors live in module Rle.                     *)
 ---------------------------------------------------------------------------
 (* Paths.  A spelled path is [t |-> tokens, lead |-> BOOLEAN, trail |->    *)
 (* BOOLEAN]; a token is a name id, "." or "..".                            *)
